@@ -217,6 +217,7 @@ def run(ctx):
             ctx.violation('speckle_contrast of a uniform image of value %g is %r (expected 0)' % (val, u), {'value': val},
                           {'class': 'speckle_contrast', 'what': 'uniform_zero', 'nan': bool(math.isnan(u))})
 
+    __import__('harness.props.genlosses', fromlist=['x']).check_generated_losses(ctx)   # regenerated loss formulas vs /repo
 
 def replay(ctx, rep):
     import odak.learn.perception as P
